@@ -701,7 +701,97 @@ def check_C17(ctx):
         "bounded time is three flush windows; the end-to-end WatchDocument path is not covered"]
 
 
-CHECKS = {"C17": check_C17, "C19": check_C19, "C20": check_C20, "C05": check_C05, "C16": check_C16, "C07": check_C07, "C09": check_C09, "C14": check_C14, "C18": check_C18, "C01": check_C01, "C02": check_C02, "C03": check_C03, "C04": check_C04, "C06": check_C06, "C08": check_C08,
+def access_cells(ctx):
+    """The procedure list from the service descriptors (harness) and the matrix
+    Access.tla derives from it (TLC; Isolation/DeniedIfForeign checked on the way)."""
+    import subprocess, re as _re
+    from core import run_tlc, tla_unescape
+    d = ctx.sub("access")
+    procs = os.path.join(d, "procs.ndjson")
+    with open(procs, "w") as f:
+        subprocess.run([ctx.yvh, "access", "-list"], stdout=f, check=True)
+    plist = [json.loads(l) for l in open(procs)]
+    rc, out, rec, td = run_tlc(ctx, "Access", "access_gen.cfg", workers=1, env_extra={"YPROCS": procs})
+    import shutil
+    shutil.rmtree(td, ignore_errors=True)
+    if rc != 0:
+        raise Infra("Access.tla failed rc=%s:\n%s" % (rc, out[-3000:]))
+    cells = []
+    for line in out.splitlines():
+        m = _re.match(r'^<<"CELL", "(.*)">>$', line.strip())
+        if m:
+            cells.append(json.loads(tla_unescape(m.group(1))))
+    if not cells:
+        raise Infra("Access.tla generated no cells")
+    return procs, plist, cells
+
+
+def access_run(ctx, procs, cells, name, flags=None):
+    import subprocess
+    d = ctx.sub("access")
+    inp = os.path.join(d, "cells-%s.ndjson" % name)
+    with open(inp, "w") as f:
+        for c in cells:
+            f.write(json.dumps(c) + "\n")
+    out = os.path.join(d, "trace-%s.ndjson" % name)
+    p = subprocess.run([ctx.yvh, "access", "-in", inp, "-out", out] + (flags or []), stdout=subprocess.PIPE, stderr=subprocess.PIPE, text=True, timeout=3000)
+    if p.returncode != 0:
+        raise Infra("access driver failed: " + (p.stderr or p.stdout)[-3000:])
+    ctx.count("behaviours_executed", len(cells))
+    viols = []
+    for v in validate(ctx, [out], module="AccessTrace", cfg="access_trace.cfg", env_extra={"YPROCS": procs}):
+        ev = None
+        if v.get("line"):
+            with open(out) as f:
+                for i, l in enumerate(f, 1):
+                    if i == v["line"]:
+                        ev = json.loads(l)
+        viols.append({"property": "C13", "tag": v["tag"], "family": "access", "behaviour": None, "cell": v.get("cell"), "server_flags": flags or [],
+                      "event": ev, "errors": [], "seed": ctx.seed})
+    ctx.count("traces_validated", 1)
+    return out, viols
+
+
+def check_C13(ctx):
+    import random
+    build_harness(ctx)
+    quick = ctx.tier == "quick"
+    procs, plist, cells = access_cells(ctx)
+    rnd = random.Random(ctx.seed)
+    viols = []
+    runs = [("default", [])] if quick else [("default", []), ("nodefault", ["-no-default-project"]), ("default2", []), ("nodefault2", ["-no-default-project"])]
+    stats = {}
+    for name, flags in runs:
+        order = list(cells)
+        rnd.shuffle(order)      # a call that damages the victim must not hide behind the order of the matrix
+        out, vs = access_run(ctx, procs, order, name, flags)
+        viols += vs
+        rows = [json.loads(l) for l in open(out)]
+        calls = [r for r in rows if r["ev"] == "Call"]
+        served = {(r["svc"], r["proc"]) for r in calls if not r["foreign"] and r["code"] == "ok"}
+        allp = {(r["svc"], r["proc"]) for r in calls}
+        stats[name] = {"cells": len(calls), "foreign_cells": sum(1 for r in calls if r["foreign"]),
+                       "procedures": len(allp), "procedures_with_a_served_control": len(served),
+                       "procedures_without_served_control": sorted("%s/%s" % p for p in allp - served),
+                       "foreign_cells_refused": sum(1 for r in calls if r["foreign"] and r["code"] != "ok"),
+                       "codes": {c: sum(1 for r in calls if r["code"] == c) for c in sorted({r["code"] for r in calls})}}
+    unknown = {"%s/%s" % (p["svc"], p["proc"]): p["unknown"] for p in plist if p["unknown"]}
+    ctx.samples.append({"family": "access", "procedures_from_descriptors": len(plist), "stream_procedures": sum(1 for p in plist if p["stream"]),
+                        "cells_in_matrix": len(cells), "unclassified_id_like_fields": unknown, "runs": stats})
+    if unknown:
+        ctx.notes.append("request fields that look like identifiers but have no slot role (not varied own/foreign): %s" % unknown)
+    fresh, known = split_known(ctx, viols)
+    return "model_checking", fresh, known, mc_cov(ctx), [
+        "the matrix (procedure x credential x own/foreign assignment of every identifying request field) is generated by TLC from Access.tla over the procedure list "
+        "the harness derives from the generated service descriptors; every cell is executed once per run against a real two-project memdb server and decided by AccessTrace.tla",
+        "'leave the foreign project's stored state byte-identical' is decided on a reflective dump of every memdb row of the victim project (all 12 tables) plus its in-memory channel session counts",
+        "'fail with not-found/unauthenticated/permission-denied' is decided as indistinguishability from the same call naming an identifier that exists nowhere (NoOracle) plus NoRead/NoWrite; "
+        "procedures that ignore an unknown client id (DeactivateClient, CreateRevision, RefreshChannel) answer ok for both and are accepted",
+        "request bodies are built generically from the descriptors; a procedure whose own-resources control call is not served (listed in coverage) is probed only as deep as its validation lets the request go",
+        "MongoDB backend, auth webhook and the TTL of channel sessions are outside the run (memdb, no webhook, TTL 1h)"]
+
+
+CHECKS = {"C13": check_C13, "C17": check_C17, "C19": check_C19, "C20": check_C20, "C05": check_C05, "C16": check_C16, "C07": check_C07, "C09": check_C09, "C14": check_C14, "C18": check_C18, "C01": check_C01, "C02": check_C02, "C03": check_C03, "C04": check_C04, "C06": check_C06, "C08": check_C08,
           "C10": check_C10, "C11": check_C11, "C12": check_C12, "C15": check_C15}
 
 
@@ -712,6 +802,13 @@ def replay(ctx, path):
     from core import SPEC, _tlc_env
     v = json.load(open(path))
     build_harness(ctx)
+    if v.get("family") == "access":
+        procs, plist, cells = access_cells(ctx)
+        out, vs = access_run(ctx, procs, [v["cell"]], "replay", v.get("server_flags"))
+        tags = sorted({x["tag"] for x in vs if x["tag"] != "Coverage"})
+        print("replayed %s: violated rules now: %s (recorded: %s)" % (path, tags, v["tag"]))
+        print(open(out).readline().strip()[:600])
+        return 1 if v["tag"] in tags else 0
     traces = execute(ctx, [v["behaviour"]], "replay", server_flags=v.get("server_flags"), shards=1)
     viols = validate(ctx, traces)
     tags = sorted({x["tag"] for x in viols})
